@@ -8,7 +8,7 @@ from vlib import coqlit as L
 from vlib.exactq import ExactQ, to_frac
 
 PID = "C11"
-PROP_FILES = ["Prop"]
+PROP_FILES = ["Prop", "PropStab"]
 ALLOWED_AXIOMS = [r"ClassicalDedekindReals\.sig_forall_dec$", r"ClassicalDedekindReals\.sig_not_dec$",
                   r"FunctionalExtensionality\.functional_extensionality_dep$", r"Classical_Prop\.classic$"]
 EXTRA_COQ_DIRS = []
@@ -50,7 +50,19 @@ def ql(ps):
   return L.lst([q(p) for p in ps])
 
 
+def _huge(x):
+  if isinstance(x, int) and not isinstance(x, bool):
+    return x.bit_length() > 6000
+  if isinstance(x, (list, tuple)):
+    return any(_huge(y) for y in x)
+  if isinstance(x, dict):
+    return any(_huge(y) for y in x.values())
+  return False
+
+
 def obs_lit(o, f):
+  if _huge(o):            # a runaway computation is an observation, not a harness crash
+    o = {"raise": "HugeNumber"}
   if "raise" in o:
     name = o["raise"]
     if not all(ch.isalnum() or ch == "_" for ch in name):
